@@ -427,10 +427,13 @@ def c23_scenario(rng):
     two_values = rng.random() < 0.2
 
     def mkhost(name, cores, np_):
+        # pstates within a factor 8 of each other: an exec sized for one pstate must not last for ages under another one
         if mode == "exact":
-            speeds = sorted(rng.sample([1.0, 2.0, 4.0, 8.0, 64.0, 2.0 ** 20], np_), reverse=True)
+            base = rng.choice([1.0, 64.0, 2.0 ** 20])
+            speeds = sorted((base * x for x in rng.sample([1.0, 2.0, 4.0, 8.0], np_)), reverse=True)
         else:
-            speeds = sorted(rng.sample([1.0, 2.5, 10.0, 33.0, 1e6, 7.5e8], np_), reverse=True)
+            base = rng.choice([1.0, 33.0, 7.5e8])
+            speeds = sorted((base * x for x in rng.sample([1.0, 0.8, 0.5, 0.25, 0.125], np_)), reverse=True)
         w = watts(rng, np_, mode)
         if two_values:
             for x in w:
@@ -453,13 +456,16 @@ def c23_scenario(rng):
     tmax = grid.step * rng.choice([16, 32, 64])
     # ---- control timeline per host: on/off (manual, or a state profile), pstate switches ----
     ctl = []
+    volatile = set()      # hosts that may be off at some point: their execs may fail at any time
     for h in eh:
         if rng.random() < 0.25:
+            volatile.add(h["name"])
             p = gen_profile(rng, grid, "hstate", 1.0)
             p["res"] = h["name"]
             p["how"] = "xml" if via == "xml" else pick_how(rng, p)
             sc["profiles"].append(p)
         elif rng.random() < 0.5:
+            volatile.add(h["name"])
             t = 0.0
             on = True
             for _ in range(rng.randint(1, 4)):
@@ -496,7 +502,9 @@ def c23_scenario(rng):
             ops.append(["xstart" if asyn else "exec", i, h["name"], h["speeds"][0] * dur * thr, bound, 1.0, thr])
             if asyn:
                 mine.append((i, h))
-                r = rng.random()
+                # suspend / cancel / migrate only what cannot have failed meanwhile (Activity::suspend() on a failed exec crashes in
+                # ActivityImpl::suspend, null model_action_: not an energy matter)
+                r = rng.random() if h["name"] not in volatile else 1.0
                 if r < 0.2:
                     t2 = grid.date(t, t + 4 * grid.step)
                     t3 = grid.date(t2, t2 + 4 * grid.step)
@@ -509,7 +517,7 @@ def c23_scenario(rng):
                 elif r < 0.42 and len(eh) > 1:
                     t2 = grid.date(t, t + 4 * grid.step)
                     other = [x for x in eh if x is not h][0]
-                    if thr <= other["cores"]:
+                    if thr <= other["cores"] and other["name"] not in volatile:
                         ops += [["until", t2], ["xmigrate", i, other["name"]]]
                         t = t2
                 waits.append(["xwait", i])
